@@ -1,6 +1,7 @@
 import RaptorModel.Driver.Common
 import RaptorModel.Model.Cycle
 import RaptorModel.Model.Setup
+import RaptorModel.Model.Strength
 /-! Driver for the AMG properties C01, C08, C09, C10: parses dumped hierarchies, replays cycles
 with the executable model at `Float`, evaluates the stop logic and the specification predicates. -/
 namespace Raptor.Driver.Amg
@@ -73,6 +74,36 @@ def rdLevel (np : Nat) : Rd LevelD := do
 def rdHierarchy (np : Nat) : Rd (List LevelD) := do
   let nl ← rdNat
   (List.range nl).mapM fun _ => rdLevel np
+
+/-- dense image of triplets as a sorted association list, entries of magnitude ≤ `tol` dropped -/
+def denseF (es : List (Nat × Nat × Float)) (tol : Float) : List ((Nat × Nat) × Float) :=
+  let sorted := es.toArray.qsort (fun a b => a.1 < b.1 || (a.1 == b.1 && a.2.1 < b.2.1)) |>.toList
+  let merged := sorted.foldl (fun (acc : List ((Nat × Nat) × Float)) e =>
+    match acc with
+    | ((i, j), s) :: tl => if i == e.1 && j == e.2.1 then ((i, j), s + e.2.2) :: tl else ((e.1, e.2.1), e.2.2) :: acc
+    | [] => [((e.1, e.2.1), e.2.2)]) []
+  (merged.filter fun p => p.2.abs > tol).reverse
+
+/-- Galerkin identity `A_{k+1} = Pᵀ (A P)` on consecutive dumped levels, with the library's product models at `Float`;
+    `some message` names the first entry that differs by more than rounding / the drop tolerance -/
+def galerkinDefect (H : List LevelD) : Option String := Id.run do
+  for (l, k) in H.zipIdx do
+    match H[k+1]? with
+    | none => pure ()
+    | some c =>
+      if !l.hasP then continue
+      if l.aTrips.any (fun e => e.1 ≥ l.n || e.2.1 ≥ l.n) || l.pTrips.any (fun e => e.1 ≥ l.n || e.2.1 ≥ c.n) then continue
+      let pap := (Setup.galerkin (fun _ => true) (⟨l.n, l.n, l.A⟩ : Sparse.Csr Float) ⟨l.n, c.n, l.P⟩).entries
+      let scale := (c.aTrips.map fun e => e.2.2.abs).foldl max 1e-300
+      let want := denseF pap (1e-9 * scale); let got := denseF c.aTrips (1e-9 * scale)
+      let keys := (want.map (·.1)) ++ (got.map (·.1))
+      for key in keys.eraseDups do
+        let w := ((want.find? fun p => p.1 == key).map (·.2)).getD 0
+        let g := ((got.find? fun p => p.1 == key).map (·.2)).getD 0
+        -- entries below 1e-16 may be dropped by the products (the property says so): absolute allowance
+        if !((w - g).abs ≤ 1e-8 * scale + 1e-15) then
+          return some s!"level {k+1} entry {key}: stored {g}, P^T A P gives {w}"
+  return none
 
 /-! ### partition-aware relaxation: every rank sweeps its own block with the halo frozen -/
 
@@ -253,6 +284,10 @@ def checkSolve (prop : String) : Rd Verdict := do
     if !(t ≤ o.tol * (1 + 1e-6) + 1e-300) then
       return specFail (base ++ "/spec/converged_but_large_residual") s!"iters={iters} < {o.maxIter}, true relres={t} > tol={o.tol}" feats
   if prop == "C10" then
+    -- hypothesis of the energy theorem, evaluated on the hierarchy the solver built: every coarse operator is Galerkin
+    match galerkinDefect H with
+    | some msg => return specFail (base ++ "/spec/hypothesis_galerkin") msg feats
+    | none => pure ()
     -- energy norm of the error must not increase from cycle to cycle
     let en (x : List Float) : Float :=
       let e := (xs.zip x).map fun p => p.1 - p.2
@@ -274,15 +309,6 @@ end Raptor.Driver.Amg
 
 namespace Raptor.Driver.Amg
 open Raptor Raptor.Driver Raptor.Cycle
-
-/-- dense image of triplets as a sorted association list, entries of magnitude ≤ `tol` dropped -/
-def denseF (es : List (Nat × Nat × Float)) (tol : Float) : List ((Nat × Nat) × Float) :=
-  let sorted := es.toArray.qsort (fun a b => a.1 < b.1 || (a.1 == b.1 && a.2.1 < b.2.1)) |>.toList
-  let merged := sorted.foldl (fun (acc : List ((Nat × Nat) × Float)) e =>
-    match acc with
-    | ((i, j), s) :: tl => if i == e.1 && j == e.2.1 then ((i, j), s + e.2.2) :: tl else ((e.1, e.2.1), e.2.2) :: acc
-    | [] => [((e.1, e.2.1), e.2.2)]) []
-  (merged.filter fun p => p.2.abs > tol).reverse
 
 /-- C08: the dumped hierarchy is conformal, Galerkin and strictly coarsening -/
 def checkHier : Rd Verdict := do
@@ -330,19 +356,18 @@ def checkHier : Rd Verdict := do
           return specFail (base ++ "/spec/P_global_size") s!"level {k}: P reported {inf.getD 10 0}x{inf.getD 11 0}, expected {l.n}x{c.n}" feats
       if l.pTrips.any (fun e => e.1 ≥ l.n || e.2.1 ≥ c.n) then
         return specFail (base ++ "/spec/P_index_range") s!"level {k}: an entry of P refers to a row ≥ {l.n} or a coarse unknown ≥ {c.n}" feats
-      -- strictly fewer unknowns (whenever the level was coarsened at all, its operator has off-diagonal entries)
-      if !(c.n < l.n) && l.aTrips.any (fun e => e.1 != e.2.1 && e.2.2 != 0) then
+      -- strictly fewer unknowns whenever the level's strength graph (the solver's measure and threshold, evaluated by
+      -- the strength model of C14 on the dumped operator) has an edge
+      let rowsDF := l.A.zipIdx.map fun (row, i) => diagFirst i row
+      let S := if o.solver == 0 then Strength.classical 2147483647.0 o.theta 1 rowsDF else Strength.symmetric 2147483647.0 o.theta rowsDF
+      let hasEdge := S.zipIdx.any fun (row, i) => row.any fun e => e.1 != i
+      if !(c.n < l.n) && hasEdge then
         return specFail (base ++ "/spec/not_coarser") s!"level {k}: {l.n} -> {c.n} unknowns" feats
-      -- Galerkin: A_{k+1} = Pᵀ (A P) up to dropped entries
-      let pap := (Setup.galerkin (fun _ => true) (⟨l.n, l.n, l.A⟩ : Sparse.Csr Float) ⟨l.n, c.n, l.P⟩).entries
-      let scale := (c.aTrips.map fun e => e.2.2.abs).foldl max 1e-300
-      let want := denseF pap (1e-9 * scale); let got := denseF c.aTrips (1e-9 * scale)
-      let keys := (want.map (·.1)) ++ (got.map (·.1))
-      for key in keys.eraseDups do
-        let w := ((want.find? fun p => p.1 == key).map (·.2)).getD 0
-        let g := ((got.find? fun p => p.1 == key).map (·.2)).getD 0
-        if !((w - g).abs ≤ 1e-8 * scale) then
-          return specFail (base ++ "/spec/galerkin") s!"level {k+1} entry {key}: stored {g}, P^T A P gives {w}" feats
+      pure ()
+  -- Galerkin: A_{k+1} = Pᵀ (A P) up to dropped entries
+  match galerkinDefect H with
+  | some msg => return specFail (base ++ "/spec/galerkin") msg feats
+  | none => pure ()
   let _ := n0
   return ok feats
 
